@@ -88,6 +88,15 @@ fn programs() -> Vec<(Program, bool)> {
     };
     let g = |k: K| get(k);
     v.push(mk("2 readers x2 hits/pool1/buffer1", 1, 1, None, false, vec![vec![g(1), g(1)], vec![g(1), g(2)]]));
+    {
+        // the statistics counters as shared memory of their own: every add is a scheduling point
+        let (mut p, f) = mk("2 readers x2 hits/pool1/buffer1/stat-counters-as-scheduling-points", 1, 1, None, false, vec![vec![g(1), g(1)], vec![g(1), g(2)]]);
+        p.world.stats_atomics_are_points = true;
+        v.push((p, f));
+        let (mut p, f) = mk("2 readers x1 hit/pool2/buffer1/stat-counters-as-scheduling-points", 2, 1, None, false, vec![vec![g(1)], vec![g(2)]]);
+        p.world.stats_atomics_are_points = true;
+        v.push((p, f));
+    }
     v.push(mk("2 readers x2 hits/pool2/buffer1", 2, 1, None, false, vec![vec![g(1), g(1)], vec![g(2), g(1)]]));
     v.push(mk("2 readers x3 (hit,miss,hit)/pool1/buffer2", 1, 2, None, false, vec![vec![g(1), g(3), g(1)], vec![g(2), g(1), g(3)]]));
     v.push(mk("2 readers x3 hits/pool1/buffer1/channel1/consumer-stopped", 1, 1, Some(1), true, vec![vec![g(1), g(1), g(1)], vec![g(2), g(2), g(2)]]));
